@@ -3126,7 +3126,8 @@ func runBounds(r *core.Run) {
 	}
 }
 
-var boundsFloor = map[string]int{"C16": 90, "C14": 14, "C15": 12, "C01": 180, "C05": 18, "C18": 8, "C19": 15}
+// (site counts: anti-vacuity levels, about half of what the pinned tree has — a rewrite that removes a few index expressions is not a defect)
+var boundsFloor = map[string]int{"C16": 45, "C14": 7, "C15": 6, "C01": 90, "C05": 9, "C18": 4, "C19": 8}
 
 // BoundsSurvey (debug): analyse every function of the given packages and print per-function results.
 func BoundsSurvey(r *core.Run, pkgs map[string]bool, verbose bool) {
